@@ -456,10 +456,21 @@ def eval_target(res, shape, coords, tgt, vencs, base_index=0, stride=1):
     core.reset_globals()
     w = build(shape, coords)
     getter, dep, inputs, only_1d = target_getter(w, tgt)
+    # The un-viewed reference comes from a TWIN world, and on the world under test the non-trivial views are
+    # requested BEFORE anything asks for the full array: lazily computed per-array state (category codes,
+    # memoized masks) must not depend on the full result having been computed first.
+    wref = build(shape, coords)
+    getter_ref = target_getter(wref, tgt)[0]
     obs = 'values' if tgt[0] == 'attr' else 'mask'
     case0 = dict(part='data', shape=list(shape), coords=coords, target=list(tgt))
+    full_codes = None
     try:
-        full = np.asarray(getter(None))
+        full_raw = getter_ref(None)
+        if hasattr(full_raw, 'codes') and hasattr(full_raw, 'categories'):
+            # categorical values carry integer codes (what statistics, histograms and plots use): the codes of a
+            # view must be the view of the codes, numbered against the categories of the FULL array
+            full_codes = np.array(full_raw.codes)
+        full = np.asarray(full_raw)
     except Exception as e:
         res.violation('full-raises', '%s|%s|none|raises:%s' % (obs, dep, type(e).__name__),
                       dict(case0, view='none'), repr(e), 'the full array')
@@ -469,7 +480,9 @@ def eval_target(res, shape, coords, tgt, vencs, base_index=0, stride=1):
                       dict(shape=full.shape, dtype=str(full.dtype)), dict(shape=shape))
         return
     full0 = full.copy()
-    for k, venc in enumerate(vencs):
+    order = [k for k, v in enumerate(vencs) if not trivial(v)] + [k for k, v in enumerate(vencs) if trivial(v)]
+    for k in order:
+        venc = vencs[k]
         st, got, exp = one_view(getter, full, venc, only_1d)
         if st == 'skip':
             res.count('views_invalid_for_shape')
@@ -480,6 +493,18 @@ def eval_target(res, shape, coords, tgt, vencs, base_index=0, stride=1):
         res.case(sig=None if trivial(venc) else (shape, coords, tgt, base_index + k * stride),
                  sample=dict(case0, view=venc) if (k % 97 == 5) else None)
         if st == 'ok':
+            if full_codes is not None:
+                v = dec_view(venc)
+                try:
+                    g = getter(v)
+                    gc = np.asarray(g.codes) if hasattr(g, 'codes') else None
+                    ec = full_codes if v is None else full_codes[v]
+                except Exception as e:
+                    gc, ec = repr(e), None
+                if gc is not None and np.ndim(ec) > 0 and (ec is None or symptom(gc, ec) is not None):
+                    res.violation('values-view', 'values|%s|%s|codes' % (dep, classify(venc, shape)),
+                                  dict(case0, view=venc), jl(gc), None if ec is None else jl(ec),
+                                  'category codes of the viewed values differ from the view of the full codes')
             continue
         if explained_by_input(w, inputs, venc):
             res.count('failures_explained_by_an_input_target')
